@@ -23,6 +23,7 @@ mod rec_vec;
 mod replay_print;
 mod replay_session;
 mod rec_conealg;
+mod rec_conebarrier;
 
 use rand::rngs::StdRng;
 use rand::{Rng, SeedableRng};
@@ -246,6 +247,20 @@ fn main() {
             let c: problem::ConeSpec = serde_json::from_value(v["cone"].clone()).unwrap();
             let g = |k: &str| -> Vec<f64> { v[k].as_array().unwrap().iter().map(|x| x.as_f64().unwrap()).collect() };
             write_lines(&args.get("out", "conealg.ndjson"), &[rec_conealg::event(0, &c, &g("s"), &g("z"), &g("x"), &g("y"), v["sigma_mu"].as_f64().unwrap(), v["y_interior"].as_bool().unwrap(), "replay")]);
+        }
+        "conebarrier" => {
+            let (lines, meta) = rec_conebarrier::record(args.num("seed", 1), args.num("count", 2000) as usize);
+            write_lines(&args.get("out", "conebarrier.ndjson"), &lines);
+            println!("{}", meta);
+        }
+        "conebarrier-replay" => {
+            let v = load_case(&args);
+            let c: problem::ConeSpec = serde_json::from_value(v["cone"].clone()).unwrap();
+            let g = |k: &str| -> Vec<f64> { v[k].as_array().unwrap().iter().map(|x| x.as_f64().unwrap()).collect() };
+            let gi = |k: &str| -> Vec<i64> { v[k].as_array().unwrap().iter().map(|x| x.as_i64().unwrap()).collect() };
+            let e = if v.get("vi").map(|x| x.is_array()).unwrap_or(false) { rec_conebarrier::lattice_event(0, &c, &gi("p"), v["q"].as_i64().unwrap(), &gi("vi")) }
+                    else if v.get("v").map(|x| x.is_array()).unwrap_or(false) { rec_conebarrier::membership_event(0, &c, &g("v")) } else { rec_conebarrier::event(0, &c, &g("s"), &g("z"), &g("ds"), &g("dz")) };
+            write_lines(&args.get("out", "conebarrier.ndjson"), &[e]);
         }
         "vecmath" => {
             let lines = rec_vec::record(args.num("seed", 1), args.get("tier", "quick") == "thorough");
